@@ -1,11 +1,18 @@
 """C06 - resolution does not depend on registration or iteration order.
 
-Correspondence: overload families biased to several simultaneously compatible candidates are
-registered on `ListContext`s (a Context subclass whose get_functions returns the overloads in a
+Correspondence: overload families biased to several simultaneously compatible candidates (lattice types,
+keyword-only parameters with and without defaults, */**, defaults the call leaves out) are
+(a) registered on `ListContext`s (a Context subclass whose get_functions returns the overloads in a
 prescribed order); every call is resolved under all permutations of every layer with <= 4 overloads
 (random ones beyond) by the real `runner.call` and by the Lean model (whose layer lists are given in
-the same order).  Oracle (real code alone): ONE outcome - overload or error class, evaluation log,
-bound arguments - per family and call across all enumeration orders; supported by plain set-backed
+the same order);
+(b) registered - the same FunctionDefinition objects with their exclusive flags, some layers with only SOME
+registrations saying exclusive=True - in every order (all permutations of the whole sequence for <= 4
+overloads, per-layer permutations and random interleavings beyond) into fresh plain set-backed Context
+chains through the public register_function, and the Lean model of register_function
+(`Yaql.ResolveCtx.run`) is told the same registrations in the same order.
+Oracle (real code alone): ONE outcome - overload or error class, evaluation log, bound arguments - per
+family and call across all enumeration AND registration orders; supported by plain set-backed
 Contexts in subprocesses with different PYTHONHASHSEED / allocation patterns / registration orders."""
 import itertools
 import json
@@ -18,13 +25,18 @@ import resolvegen
 import resolvelib as rl
 
 ID = 'C06'
-LEAN_MODULES = ['Yaql.Props.C06']
+LEAN_MODULES = ['Yaql.Props.C06', 'Yaql.Props.C06Reg']
 P = 'Yaql.Props.C06.'
 REQUIRED_THEOREMS = [P + n for n in (
     'perm_invariant', 'spec_perm_invariant', 'old_order_dependent', 'old_tuple_order_dependent',
-    'visible_perm', 'stage_perm', 'choose_perm')]
+    'visible_perm', 'stage_perm', 'choose_perm')] + [
+    'Yaql.Props.C06Reg.' + n for n in (
+        'register_perm_invariant', 'family_register_perm', 'resolve_register_perm_invariant', 'exclusive_any',
+        'last_registration_wins_order_dependent')]
 TRUSTED = ['resolvelib.ListContext: the enumeration order of a layer is what its get_functions returns',
-           'resolvelib.enc_fd / enc_arg (encoding of the real objects for the model)']
+           'resolvelib.enc_fd / enc_arg (encoding of the real objects for the model)',
+           'the reading of exclusive=True: a layer is exclusive for a name when ANY registration of that name in it said '
+           'so (contexts.py: _exclusive_funcs is a set of names that register_function only adds to)']
 ASSUMPTIONS = ['the enumeration order of one context is the same for the two passes of one choose_overload call '
                '(true for a set that is not mutated in between)']
 
@@ -52,16 +64,24 @@ HAND = [
 ]
 
 
+RICH = ('kwonly-mix', 'star-mix', 'default-mix', 'rich')
+
+
 def gen_family(rng):
-    shape = rng.choice(['lattice', 'lattice', 'lattice', '1below2', 'lazy-mix', 'nk-mix', 'general', 'tuple-mix'])
+    shape = rng.choice(['lattice', 'lattice', '1below2', 'lazy-mix', 'nk-mix', 'general', 'tuple-mix',
+                        'kwonly-mix', 'kwonly-mix', 'star-mix', 'default-mix', 'rich', 'rich'])
     arity = rng.choice([1, 2, 2, 3])
     names = ['a', 'b', 'c'][:arity]
     fid = [0]
+    p_kwonly = 0.45 if shape in ('kwonly-mix', 'rich') else 0.05
+    p_star = 0.4 if shape in ('star-mix', 'rich') else 0.1
+    p_default = 0.5 if shape in ('default-mix', 'rich') else 0.15
 
     def overload(tys, nk=False, kind='function'):
         ps = [_p(n, t) for n, t in zip(names, tys)]
-        if rng.random() < 0.15:
-            ps[-1]['default'] = ['corpus', 3]
+        if rng.random() < p_default:
+            for p in ps[rng.randrange(len(ps)):] if shape in RICH else ps[-1:]:
+                p['default'] = ['corpus', rng.choice([3, 3, 4])]
         if rng.random() < 0.15:
             ps.insert(rng.randrange(len(ps) + 1), _p('h', rng.choice(['Context', 'Engine'])))
             seen = False
@@ -70,10 +90,16 @@ def gen_family(rng):
                     seen = True
                 elif seen:
                     p['default'] = ['none']
-        if rng.random() < 0.1:
-            ps.append(dict(name='rest', kind='star', ty=['py', 'Base', False]))
-        if rng.random() < 0.1:
-            ps.append(dict(name='kws', kind='starstar', ty=['py', 'object', False]))
+        if rng.random() < p_star:
+            ps.append(dict(name='rest', kind='star', ty=['py', rng.choice(['Base', 'Base', 'L', 'object']), False]))
+        if rng.random() < p_kwonly:
+            for k in range(rng.choice([1, 1, 2])):
+                p = dict(name='k%d' % k, kind='kwonly', ty=['py', rng.choice(LAT), False])
+                if rng.random() < 0.75:     # mostly defaulted: the call may leave it out
+                    p['default'] = ['corpus', rng.choice([3, 3, 4])] if rng.random() < 0.9 else ['none']
+                ps.append(p)
+        if rng.random() < (0.3 if shape in RICH else 0.1):
+            ps.append(dict(name='kws', kind='starstar', ty=['py', rng.choice(['object', 'Base']), False]))
         o = _o(fid[0], ps, kind, nk)
         fid[0] += 1
         return o
@@ -82,8 +108,8 @@ def gen_family(rng):
         return [['py', rng.choice(LAT), False] for _ in range(arity)]
 
     layers = []
-    for li in range(rng.choice([1, 1, 1, 2])):
-        n = rng.choice([2, 3, 3, 4, 4, 5, 6])
+    for li in range(rng.choice([1, 1, 1, 2, 2, 3])):
+        n = rng.choice([2, 3, 3, 4, 4, 5, 6]) if li == 0 else rng.choice([1, 2, 3, 4])
         fns = []
         if shape == '1below2' and arity >= 2 and li == 0:
             extra = [['py', 'object', False]] * (arity - 2)
@@ -102,31 +128,60 @@ def gen_family(rng):
                 tys[rng.randrange(arity)] = rng.choice(['Number', 'Integer', ['py', 'object', False]])
             if shape == 'general':
                 tys = [resolvegen.gen_type(rng) for _ in range(arity)]
+            if li > 0 and rng.random() < 0.15:
+                tys[rng.randrange(arity)] = 'Lambda'     # an outer layer whose laziness differs, if it is reached
             fns.append(overload(tys, nk))
         rng.shuffle(fns)
-        layers.append(dict(fns=fns, x=rng.random() < 0.15))
+        layer = dict(fns=fns, x=False)
+        r = rng.random()
+        if r < 0.12:
+            layer['x'] = True                           # every registration says exclusive=True
+        elif r < 0.35:
+            for o in rng.sample(fns, rng.randrange(1, len(fns) + 1)):
+                o['x'] = True                           # only some of them do
+        layers.append(layer)
     return shape, layers
 
 
 def gen_calls(rng, shape, layers):
+    allo = [o for l in layers for o in l['fns']]
     arity = max([len([p for p in o['params'] if p['kind'] == 'pos' and not resolvegen.is_hidden(p)])
-                 for l in layers for o in l['fns']] + [1])
+                 for o in allo] + [1])
+    kwonly = sorted({p['name'] for o in allo for p in o['params'] if p['kind'] == 'kwonly'})
+    has_star = any(p['kind'] == 'star' for o in allo for p in o['params'])
+    has_default = any('default' in p for o in allo for p in o['params'] if p['kind'] == 'pos')
     pc = resolvegen.ProbeCounter()
     calls = []
+
+    def an_arg():
+        v = rng.choice([3, 3, 4, 4, 1, 2, 0]) if shape != 'tuple-mix' else rng.choice([3, 6, 6, 5, 10])
+        form = rng.random()
+        a = ['tick', pc.next(), v] if form < 0.6 else ['v', ['corpus', v]] if form < 0.8 else \
+            ['var', rl.SILENT + pc.next(), v]
+        if shape == 'tuple-mix' and form > 0.9:
+            a = ['c', 7]
+        return a
+
     for _ in range(2):
         args, kw = [], []
-        nargs = arity if rng.random() < 0.8 else rng.choice([arity - 1, arity + 1])
+        r = rng.random()
+        if has_default and shape in RICH and r < 0.45:
+            nargs = arity - rng.choice([1, 1, 2])           # defaults left to the overloads
+        elif has_star and shape in RICH and r < 0.7:
+            nargs = arity + rng.choice([1, 1, 2])           # extra arguments for *
+        else:
+            nargs = arity if r < 0.9 else rng.choice([arity - 1, arity + 1])
         for i in range(max(nargs, 0)):
-            v = rng.choice([3, 3, 4, 4, 1, 2, 0]) if shape != 'tuple-mix' else rng.choice([3, 6, 6, 5, 10])
-            form = rng.random()
-            a = ['tick', pc.next(), v] if form < 0.6 else ['v', ['corpus', v]] if form < 0.8 else \
-                ['var', rl.SILENT + pc.next(), v]
-            if shape == 'tuple-mix' and form > 0.9:
-                a = ['c', 7]
+            a = an_arg()
             if i >= 1 and rng.random() < 0.2 and i < 3:
                 kw.append([['a', 'b', 'c'][i], a])
+            elif has_default and shape in RICH and i < nargs - 1 and rng.random() < 0.06:
+                args.append(['nv'])                         # skipped argument: needs a default
             else:
                 args.append(a)
+        for n in kwonly:
+            if rng.random() < 0.25:
+                kw.append([n, an_arg()])
         pykw = []
         for n, a in kw:
             if rng.random() < 0.5 and a[0] != 'v':
@@ -137,6 +192,30 @@ def gen_calls(rng, shape, layers):
             pykw.append(['zz', ['v', ['corpus', 3]]])
         calls.append(dict(args=args, kw=pykw))
     return calls
+
+
+def reg_orders(rng, fam_spec, tier):
+    """registration orders to try on fresh set-backed contexts: sequences of (layer, overload id).  All
+    permutations of the whole sequence when the family has <= 4 overloads; otherwise every permutation of each
+    layer of <= 4 overloads (the other layers before/after it in turn) plus random interleavings."""
+    base = [(li, o['id']) for li in reversed(range(len(fam_spec))) for o in fam_spec[li]['fns']]
+    if len(base) <= 4:
+        return [list(p) for p in itertools.permutations(base)]
+    out = [base]
+    cap = 6 if tier == 'quick' else 24
+    for li, layer in enumerate(fam_spec):
+        ids = [(li, o['id']) for o in layer['fns']]
+        rest = [x for x in base if x[0] != li]
+        if len(ids) <= 1:
+            continue
+        perms = list(itertools.permutations(ids))
+        if len(ids) > 3:
+            perms = rng.sample(perms, cap) if len(ids) <= 5 else [tuple(rng.sample(ids, len(ids))) for _ in range(cap)]
+        for k, p in enumerate(perms):
+            out.append(list(p) + rest if k % 2 else rest + list(p))
+    for _ in range(4):
+        out.append(rng.sample(base, len(base)))
+    return out
 
 
 def orders(rng, fam_spec, tier):
@@ -172,7 +251,7 @@ def enc_layers_in_order(fam, order):
     out = []
     for layer, ids in zip(fam.spec, order):
         fs = [rl.enc_fd(fam.fds[i], i) for i in ids if i in fam.fds]
-        out.append(dict(fs=fs, x=bool(layer.get('x')) and bool(fs)))
+        out.append(dict(fs=fs, x=fam.layer_exclusive(len(out))))
     return out
 
 
@@ -180,7 +259,7 @@ def outcome_key(r):
     return json.dumps([r.get('err', r.get('id')), r.get('delegate_error'), r['log'], r.get('bound')], sort_keys=True)
 
 
-def run_family(case, drv, rng, tier, hist=None):
+def run_family(case, drv, rng, tier, hist=None, stats=None):
     """-> list of (kind, key, message)"""
     fam = rl.Family(case['layers'], ordered=True)
     ords = orders(rng, case['layers'], tier)
@@ -198,7 +277,7 @@ def run_family(case, drv, rng, tier, hist=None):
             fam.set_order(li, ids)
         for ci, call in enumerate(calls):
             r = rl.run_real(fam, call)
-            seen[ci].setdefault(outcome_key(r), (o, r))
+            seen[ci].setdefault(outcome_key(r), ('enumeration order %r' % (o,), r))
             if models is not None and 'delegate_error' not in r:
                 m = models[oi][ci]
                 m_out = m.get('err', m.get('id'))
@@ -210,19 +289,60 @@ def run_family(case, drv, rng, tier, hist=None):
                 elif 'id' in r and rl.model_bound(fam.fds[r['id']], m) != r['bound']:
                     fails.append(('mismatch', 'bound-vector', 'order %r call %d: real bound %r, model %r' % (
                         o, ci, r['bound'], rl.model_bound(fam.fds[r['id']], m))))
+    if stats is not None:
+        # how many candidates get past mapping / are type-compatible at once (rules transcription, base order)
+        for li, layer in enumerate(case['layers']):
+            fam.set_order(li, [o['id'] for o in layer['fns']])
+        stats['mapped'] = max([rl.spec_resolve(fam, c).get('nmapped', 0) for c in calls] + [0])
+        stats['compat'] = max([rl.spec_resolve(fam, c).get('nmatch', 0) for c in calls] + [0])
+    # registration order: the same overloads (with their exclusive flags) registered into fresh plain,
+    # set-backed Contexts in every order; one outcome, and the one the model gives
+    n_orders = len(ords)
+    if not case.get('no_reg_orders'):
+        regs = reg_orders(rng, case['layers'], tier)
+        n_orders += len(regs)
+        rmodels = None
+        if drv:
+            # the model of register_function (Yaql.ResolveCtx.run) is told the same registrations in the same order
+            nl = len(case['layers'])
+            defs = [rl.enc_fd(fd, i) for i, fd in sorted(fam.fds.items())]
+            hists = []
+            for ro in regs:
+                steps = [dict(k='root')] + [dict(k='child', i=k) for k in range(nl - 1)]
+                for li, fid in ro:
+                    if fid in fam.fds:
+                        o = next(o for o in case['layers'][li]['fns'] if o['id'] == fid)
+                        steps.append(dict(k='reg', i=nl - 1 - li, name='f', fid=fid,
+                                          x=bool(case['layers'][li].get('x')) or bool(o.get('x'))))
+                steps += [dict(k='call', i=nl - 1, name='f', call=c.enc()) for c in calls]
+                hists.append(dict(defs=defs, steps=steps))
+            rmodels = drv.ask(dict(p='Resolve', op='hist', lat=rl.T.lattice(), hists=hists))['out']
+        for ri, ro in enumerate(regs):
+            f2 = rl.Family(case['layers'], reg_order=ro, fds=fam.fds)
+            for ci, call in enumerate(calls):
+                r = rl.run_real(f2, call)
+                seen[ci].setdefault(outcome_key(r), ('registration order %r' % (ro,), r))
+                if rmodels is not None and 'delegate_error' not in r:
+                    m = rmodels[ri][ci]
+                    m_out = m.get('err', m.get('id'))
+                    r_out = r.get('err', r.get('id'))
+                    mlog = [p for p in m['log'] if p < rl.SILENT]
+                    if m_out != r_out or mlog != r['log']:
+                        fails.append(('mismatch', 'registration-resolution',
+                                      'registration order %r call %d: real %r log %r, model (exclusive = any registration '
+                                      'said so) %r log %r' % (ro, ci, r_out, r['log'], m_out, mlog)))
     for ci, s in enumerate(seen):
         if hist is not None:
             r0 = next(iter(s.values()))[1]
             k = 'outcome:' + str(r0.get('err', 'chosen'))
             hist[k] = hist.get(k, 0) + 1
         if len(s) > 1:
-            outs = sorted({str(r.get('err', r.get('id'))) for _, r in s.values()})
             key = 'order-dependent'
-            what = '; '.join('order %r -> %s log %r' % (o, r.get('err', r.get('id')), r['log'])
+            what = '; '.join('%s -> %s log %r' % (o, r.get('err', r.get('delegate_error', r.get('id'))), r['log'])
                              for o, r in list(s.values())[:3])
-            fails.append(('oracle', key, 'call %d has %d outcomes across %d enumeration orders: %s' % (
-                ci, len(s), len(ords), what)))
-    return fails, len(ords), seen
+            fails.append(('oracle', key, 'call %d has %d outcomes across %d enumeration / registration orders: %s' % (
+                ci, len(s), n_orders, what)))
+    return fails, n_orders, seen
 
 
 def shrink(case, drv, rng, tier, kind, key):
@@ -256,6 +376,23 @@ def shrink(case, drv, rng, tier, kind, key):
                     c = copy.deepcopy(case)
                     del c['layers'][li]['fns'][oi]['params'][pi]
                     cands.append(c)
+                if layer['fns'][oi].get('x'):
+                    c = copy.deepcopy(case)
+                    del c['layers'][li]['fns'][oi]['x']
+                    cands.append(c)
+            if layer.get('x'):
+                c = copy.deepcopy(case)
+                c['layers'][li]['x'] = False
+                cands.append(c)
+        for ci, call in enumerate(case['calls']):
+            for ai in range(len(call['args'])):
+                c = copy.deepcopy(case)
+                del c['calls'][ci]['args'][ai]
+                cands.append(c)
+            for ki in range(len(call.get('kw', []))):
+                c = copy.deepcopy(case)
+                del c['calls'][ci]['kw'][ki]
+                cands.append(c)
         for c in cands:
             if fails(c):
                 case = c
@@ -299,11 +436,15 @@ def run(env, res):
     drv = env['driver']
     tier = env['tier']
     rng = common.make_rng(env['seed'], 'C06')
-    n_fam = 2500 if tier == "quick" else 24000
-    res.rule = ('overload families of 1-2 layers with 2-6 overloads of equal arity over the lattice Base>L,R>D (+ shapes: '
+    n_fam = 1700 if tier == "quick" else 8000
+    res.rule = ('overload families of 1-3 layers with 2-6 overloads of equal arity over the lattice Base>L,R>D (+ shapes: '
                 'one-below-two-incomparable, lazy/eager mixes, no_kwargs mixes with keyword calls, general smart types, '
-                'tuple/class mixes), 2 calls each with arguments that satisfy several overloads at once; every call under '
-                'all permutations of each layer of <= 4 overloads (random beyond); distinct = distinct (family, calls); '
+                'tuple/class mixes, keyword-only parameters with/without defaults, */**, defaults the call omits; layers '
+                'exclusive through all or through only some of their registrations), 2 calls each with arguments that '
+                'satisfy several overloads at once; every call under all permutations of the enumeration order of each '
+                'layer of <= 4 overloads (random beyond) AND under all registration orders (<= 4 overloads: every '
+                'permutation of the whole register_function sequence; beyond: per-layer permutations and random '
+                'interleavings) on fresh set-backed contexts; distinct = distinct (family, calls); '
                 'non-trivial = some call has >= 2 type-compatible candidates or an ambiguity')
     hist = {}
     if env['replay']:
@@ -321,16 +462,32 @@ def run(env, res):
         else:
             shape, layers = gen_family(rng)
             case = dict(layers=layers, calls=gen_calls(rng, shape, layers))
+        stats = {}
         try:
-            fs, n, seen = run_family(case, drv, rng, tier, hist)
+            fs, n, seen = run_family(case, drv, rng, tier, hist, stats)
         except rl.Unsupported:
             continue
         hist['shape:' + shape] = hist.get('shape:' + shape, 0) + 1
         hist['orders'] = hist.get('orders', 0) + n
+        for what in ('mapped', 'compat'):
+            for lim in (2, 3, 4):
+                if stats.get(what, 0) >= lim:
+                    hist['families:%s>=%d' % (what, lim)] = hist.get('families:%s>=%d' % (what, lim), 0) + 1
+        if stats.get('compat', 0) >= 3 and shape in RICH:
+            hist['families:rich-shape,compat>=3'] = hist.get('families:rich-shape,compat>=3', 0) + 1
+        for l in case['layers']:
+            flags = [bool(l.get('x')) or bool(o.get('x')) for o in l['fns']]
+            if any(flags):
+                k2 = 'layer:exclusive-all' if all(flags) else 'layer:exclusive-some'
+                hist[k2] = hist.get(k2, 0) + 1
+            for o in l['fns']:
+                for p_ in o['params']:
+                    k2 = 'param:' + p_['kind'] + ('+default' if 'default' in p_ else '')
+                    hist[k2] = hist.get(k2, 0) + 1
         nontrivial = any(next(iter(s.values()))[1].get('err') in (None, 'Ambiguous', 'TypeError') for s in seen)
         res.case(common.digest(case), nontrivial, sample=case if k < 2 else None)
         res.traces += n * len(case['calls']) if drv else 0
-        if len(kept) < (150 if tier == 'quick' else 1500) and shape != 'hand':
+        if len(kept) < (150 if tier == 'quick' else 1000) and shape != 'hand':
             kept.append(case)
         done = set()
         for kind, key, msg in fs:
@@ -351,14 +508,20 @@ def run(env, res):
     return res
 
 
-LEVEL_TEXT = ('Lean 4 theorem perm_invariant: the code-shaped model of runner.call/choose_overload gives the same overload, '
-              'bound arguments, evaluation log and error class for every layer-wise permutation of the overloads - in full, '
+LEVEL_TEXT = ('Lean 4 theorems: perm_invariant - the code-shaped model of runner.call/choose_overload gives the same overload, '
+              'bound arguments, evaluation log and error class for every layer-wise permutation of the overloads, in full, '
               'for every class graph, family and call (resolve = resolveSpec, and visible_perm, stage_perm, choose_perm show '
-              'each stage of resolveSpec is a function of the overload set); old_order_dependent and '
-              'old_tuple_order_dependent document the two repaired sources of order dependence. Tie: real runner.call on '
-              'contexts with a controlled enumeration order, all permutations, against the model given the same orders; '
-              'set-backed contexts in subprocesses.')
-LEVEL_NOTE = ('trusted: Lean kernel; Yaql/Model/Types.lean, Resolve.lean; ListContext as the means of controlling the '
-              'enumeration order; the harness.')
-TECHNIQUE = 'Lean 4 proof (permutation invariance stage by stage) + exhaustive permutation replay on the real code'
+              'each stage of resolveSpec is a function of the overload set); C06Reg.register_perm_invariant - the model of '
+              'Context.register_function (sets of definitions, set of exclusive names) leaves the same contexts behind for '
+              'every order of the same registrations, hence (family_register_perm, resolve_register_perm_invariant) every '
+              'call from every context - plain, multi, linked - resolves the same; exclusive_any - a layer is exclusive '
+              'iff some registration said so; old_order_dependent, old_tuple_order_dependent and '
+              'last_registration_wins_order_dependent document the repaired / excluded sources of order dependence. Tie: '
+              'real runner.call on contexts with a controlled enumeration order, all permutations, against the model given '
+              'the same orders; the same families registered in all orders into fresh set-backed contexts against the '
+              'model of register_function told the same orders; set-backed contexts in subprocesses.')
+LEVEL_NOTE = ('trusted: Lean kernel; Yaql/Model/Types.lean, Resolve.lean, Context.lean, ResolveCtx.lean; ListContext as the '
+              'means of controlling the enumeration order; the harness.')
+TECHNIQUE = ('Lean 4 proof (permutation invariance stage by stage; commuting-fold argument for registrations) + exhaustive '
+             'permutation replay of enumeration and registration orders on the real code')
 DESIGN_REF = 'DESIGN.md section 5, C06'
